@@ -21,6 +21,8 @@ type c04Case struct {
 	// indices into the atom tables, so that the labels travel with the witness
 	O, M, Q, R []int  `json:",omitempty"`
 	Via        string `json:"via"` // "new" | "reconfigure-zero" | "reconfigure-configured" | "reconfigure-same-origins"
+	// Shape 1: the lists are windows of one backing array with spare capacity and unused lists are empty but non-nil
+	Shape int `json:"slice_shape,omitempty"`
 }
 
 var (
@@ -69,6 +71,9 @@ func c04Make(sw ref.Switches, o, m, q, r []int, maxAge, status int, via string) 
 // c04Run calls the constructor named by Via.
 func c04Run(k c04Case) (m *cors.Middleware, err error, f *vlib.Failure) {
 	cfg := k.Cfg.Config()
+	if k.Shape == 1 {
+		cfg = k.Cfg.ConfigAlt()
+	}
 	switch k.Via {
 	case "new":
 		m, err = cors.NewMiddleware(cfg)
@@ -255,7 +260,25 @@ func allSwitches() []ref.Switches {
 }
 
 // c04Explore drives the shared generator; try is called for every configuration.
-func c04Explore(c *vlib.Ctx, try func(k c04Case)) {
+func c04Explore(c *vlib.Ctx, try0 func(k c04Case)) {
+	try := func(k c04Case) {
+		// both slice shapes, chosen by a deterministic mix of the case's own content
+		h := uint32(len(k.Via))*31 + uint32(k.Cfg.MaxAge)*7 + uint32(k.Cfg.Status)*13
+		for _, l := range [][]int{k.O, k.M, k.Q, k.R} {
+			h = h*131 + uint32(len(l))
+			for _, x := range l {
+				h = h*131 + uint32(x)
+			}
+		}
+		for _, b := range []bool{k.Cfg.Credentialed, k.Cfg.PNA, k.Cfg.PNANoCORS, k.Cfg.TolInsecure, k.Cfg.TolPSL} {
+			h *= 3
+			if b {
+				h++
+			}
+		}
+		k.Shape = int(h>>7) & 1
+		try0(k)
+	}
 	sws := allSwitches()
 	vias := []string{"new", "reconfigure-zero", "reconfigure-configured", "reconfigure-same-origins", "reconfigure-debug"}
 	// P1: all 32 switch combinations x all origin lists of length <= L, other fields valid
